@@ -112,6 +112,8 @@ func init() {
 			}
 			a := a
 			s.CPU.OnPC[a] = func() {
+				// a callback with a visible side effect: it must run equally often with and without a Logger
+				s.WRAM[0x1E00+int(a&0xFF)]++
 				steps++
 				if steps > limit {
 					panic(abortRun{})
